@@ -31,6 +31,7 @@ func register(s Scenario) { scenarios[s.Name()] = s }
 func init() {
 	register(mpxflowScn{})
 	register(chanendScn{})
+	register(windowScn{})
 }
 
 // RunOpts are per-execution options that do not belong to the plan.
